@@ -314,7 +314,8 @@ func newExec(p *Program, ts *TermStore, sols []*Solver, harness string, prefix [
 		globals: map[*ssa.Global]*Value{}, locks: map[*Value]*lockState{}, onces: map[*Value]bool{}, avals: map[*Value]Value{},
 		inputSeen: map[string]bool{}, maxSteps: o.maxSteps, reached: map[string]bool{}, asserted: map[string]int{},
 		fnEntered: map[*ssa.Function]bool{}, finfo: map[*ssa.Function]*fnInfo{}, icept: map[*ssa.Function]interceptFn{},
-		counters: map[string]int{}, obsTerms: map[string]*Term{},
+		counters: map[string]int{}, obsTerms: map[string]*Term{}, minfo: map[*ssa.Function]*mergeInfo{},
+		noMerge: os.Getenv("GSE_NOMERGE") != "",
 	}
 	return ex
 }
